@@ -20,6 +20,7 @@ type loopInfo struct {
 	blocks  map[int]bool
 	latches []*ssa.BasicBlock
 	decr0   string // measure at the header
+	frameComps []string
 }
 
 type retInfo struct {
@@ -76,6 +77,8 @@ type FnTrans struct {
 	callOrd    map[string]int
 	atDone     map[int]bool
 	selStates  map[ssa.Value][]Val
+	masks      map[ssa.Value]uint64
+	modComps   map[string]bool
 }
 
 func (tr *FnTrans) obName(class string, label string) string {
@@ -563,6 +566,21 @@ func (tr *FnTrans) run() {
 		}
 	}
 	tr.globalFacts()
+	if _, ok := tr.w.ghosts["held"]; ok {
+		// a mutex inside a not yet allocated object is not held
+		vc.compDecl(ghostComp("held"), arrSort(sortInt, sortInt))
+		h0 := vc.hget(tr.cur, ghostComp("held"))
+		vc.fact(fmt.Sprintf("(forall ((i Int)) (! (=> (>= i %s) (= (select %s i) 0)) :pattern ((select %s i))))", tr.entryAlloc, h0, h0), "")
+	}
+	tr.modComps = map[string]bool{}
+	if tr.fc != nil && !tr.fc.ModAll {
+		ec := tr.specCtx(tr.entryHeap, tr.entryHeap, nil)
+		for _, m := range tr.fc.Modifies {
+			for _, t := range tr.modTargets(ec, m) {
+				tr.modComps[t.comp] = true
+			}
+		}
+	}
 
 	for _, b := range tr.order {
 		tr.block(b)
@@ -704,6 +722,24 @@ func (tr *FnTrans) loopHeader(li *loopInfo, phiEntry map[*ssa.Phi]Val) {
 			tr.vc.oblig(fmt.Sprintf("%s#inv:loop%d.%s:entry", tr.name, li.num, c.Label), "inv", sImp(tr.curReach, ec.evalBool(c.E)), "loop invariant on entry: "+c.Text)
 		}
 	}
+	// automatic frame invariant: components that the function's modifies
+	// clause does not mention stay unchanged on objects that existed at entry
+	li.frameComps = nil
+	if !tr.scan && tr.fc != nil && !tr.fc.ModAll && tr.loopMods != nil {
+		for _, c := range tr.loopMods[b.Index] {
+			srt, ok := vc.compSort[c]
+			if !ok || c == compAlloc || c == "*" || strings.HasPrefix(c, "G$") || strings.HasPrefix(c, "V$") || strings.HasPrefix(c, "R$") || tr.modComps[c] {
+				continue
+			}
+			if !strings.HasPrefix(srt, "(Array Int ") {
+				continue
+			}
+			li.frameComps = append(li.frameComps, c)
+		}
+		if len(li.frameComps) > 0 {
+			tr.vc.oblig(fmt.Sprintf("%s#inv:loop%d.autoframe:entry", tr.name, li.num), "inv", sImp(tr.curReach, tr.frameTerm(li, tr.cur)), "objects existing at entry are unchanged when the loop is entered (components outside the modifies clause)")
+		}
+	}
 	// 2. havoc
 	pre := tr.cur
 	tr.cur = pre.clone()
@@ -743,6 +779,9 @@ func (tr *FnTrans) loopHeader(li *loopInfo, phiEntry map[*ssa.Phi]Val) {
 	}
 	// 3. assume invariants
 	if !tr.scan {
+		if len(li.frameComps) > 0 {
+			tr.fact(tr.frameTerm(li, tr.cur))
+		}
 		ec := tr.loopCtx(li, nil, tr.cur)
 		for _, c := range invs {
 			tr.fact(ec.evalBool(c.E))
@@ -751,6 +790,20 @@ func (tr *FnTrans) loopHeader(li *loopInfo, phiEntry map[*ssa.Phi]Val) {
 			li.decr0 = ec.evalInt(dec)
 		}
 	}
+}
+
+// frameTerm: the automatic loop frame invariant over li.frameComps in heap h.
+func (tr *FnTrans) frameTerm(li *loopInfo, h *Heap) string {
+	var ps []string
+	for _, c := range li.frameComps {
+		cur := tr.vc.hget(h, c)
+		ent := tr.vc.hget(tr.entryHeap, c)
+		if cur == ent {
+			continue
+		}
+		ps = append(ps, fmt.Sprintf("(forall ((i Int)) (! (=> %s (= (select %s i) (select %s i))) :pattern ((select %s i))))", tr.vc.existedAt("i", tr.entryAlloc), cur, ent, cur))
+	}
+	return sAnd(ps...)
 }
 
 // loopCtx: evaluation context for invariants of loop li; override maps the
@@ -842,6 +895,9 @@ func (tr *FnTrans) latch(from *ssa.BasicBlock, li *loopInfo, cond string) {
 		if l == from {
 			k = j + 1
 		}
+	}
+	if len(li.frameComps) > 0 {
+		tr.vc.oblig(fmt.Sprintf("%s#inv:loop%d.autoframe:latch%d", tr.name, li.num, k), "inv", sImp(cond, tr.frameTerm(li, tr.cur)), "objects existing at entry are unchanged by the loop body (components outside the modifies clause)")
 	}
 	for _, c := range tr.fc.LoopInv[li.num] {
 		tr.vc.oblig(fmt.Sprintf("%s#inv:loop%d.%s:latch%d", tr.name, li.num, c.Label, k), "inv", sImp(cond, ec.evalBool(c.E)), "loop invariant preserved: "+c.Text)
@@ -954,12 +1010,9 @@ func (tr *FnTrans) modTargets(ec *evalCtx, e Expr) []modTarget {
 					panic(vcErrorf("modifies: nested struct elements unsupported"))
 				}
 				comp, _ := vc.fieldComp(et, i)
-				name := qsym("eref$" + typeKey(et))
-				ia := qsym("eref_arr$" + typeKey(et))
-				ii := qsym("eref_idx$" + typeKey(et))
-				vc.elemRef(et, "0", "0")
+				vc.erefDecls()
 				out = append(out, modTarget{comp: comp, pred: func(x string) string {
-					return sAnd(sEq(x, sApp(name, sApp(ia, x), sApp(ii, x))), sEq(sApp(ia, x), arr), sLe(l, sApp(ii, x)), sLt(sApp(ii, x), h))
+					return isElemOf(x, arr, l, h)
 				}})
 			}
 			return
@@ -1059,6 +1112,19 @@ func (tr *FnTrans) modTargets(ec *evalCtx, e Expr) []modTarget {
 	case *ECall:
 		if x.Fn == "alloc" {
 			return nil
+		}
+		if x.Fn == "elems" && len(x.Args) == 1 { // contents of a map / all elements of a slice
+			v := ec.eval(x.Args[0])
+			if v.K == KSlice {
+				sliceTargets(v, "0", "(s-len "+v.T+")")
+				return out
+			}
+			if v.K == KRef {
+				if _, ok := v.Typ.Underlying().(*types.Map); ok {
+					mh, mv, ml, _ := vc.mapComps(v.Typ)
+					return []modTarget{{comp: mh, idx: v.T}, {comp: mv, idx: v.T}, {comp: ml, idx: v.T}}
+				}
+			}
 		}
 	}
 	panic(vcErrorf("unsupported modifies target %s", exprString(e)))
@@ -1185,7 +1251,7 @@ func (tr *FnTrans) frameCheck(fin *Heap, reach string) {
 		is, es := splitArrSort(srt)
 		existed := "true"
 		if is == sortInt && !strings.HasPrefix(comp, "G$") && !strings.HasPrefix(comp, "V$") {
-			existed = sLt("i", tr.entryAlloc)
+			existed = vc.existedAt("i", tr.entryAlloc)
 		}
 		var allowed []string
 		var inner []string
@@ -1204,6 +1270,13 @@ func (tr *FnTrans) frameCheck(fin *Heap, reach string) {
 		term := fmt.Sprintf("(forall ((i %s)) %s)", is, sAnd(append([]string{body}, inner...)...))
 		vc.oblig(tr.name+"#frame:"+comp, "frame", sImp(reach, term), "frame: "+comp+" changes only at the declared locations")
 	}
+}
+
+// isElemOf: address x is the base address of element i, lo <= i < hi, of the
+// struct-element array arr.
+func isElemOf(x, arr, lo, hi string) string {
+	g := sApp("gid", x)
+	return sAnd(sLt(x, "0"), sEq(x, sApp("eref", sApp("erefarr", g), sApp("erefidx", g))), sEq(sApp("erefarr", g), arr), sLe(lo, sApp("erefidx", g)), sLt(sApp("erefidx", g), hi))
 }
 
 func (tr *FnTrans) innerAllowed(ts []modTarget, idx string) string {
